@@ -58,9 +58,17 @@ static Obs observe(GMGPolar& s, const Cfg& k)
     for (int i = 0; i < u.size(); i++)
         if (!std::isfinite(u[i]))
             o.finite = false;
-    if (k.exact && !s.exact_errors_.empty()) {
-        o.e2   = s.exactErrorWeightedEuclidean().value();
-        o.einf = s.exactErrorInfinity().value();
+    // the error figures are read the way a user reads them - through the getters, whether or not an exact solution is attached
+    // (without one they must report "no value": -1 here; -2 marks a getter that has a value although no exact solution is set)
+    {
+        auto a = s.exactErrorWeightedEuclidean();
+        auto b = s.exactErrorInfinity();
+        if (a.has_value() && b.has_value()) {
+            o.e2   = k.exact ? a.value() : -2.0;
+            o.einf = k.exact ? b.value() : -2.0;
+        }
+        else if (a.has_value() != b.has_value())
+            o.e2 = o.einf = -3.0;
     }
     o.nr     = s.grid().nr();
     o.nt     = s.grid().ntheta();
@@ -553,7 +561,8 @@ static void modeOpt(const Case& c)
         const double rho = s->meanResidualReductionFactor();
         double e2 = -1, einf = -1;
         int haveErr = 0;
-        if (k.exact) {
+        {
+            // read through the getters whether or not an exact solution is attached (without one: no value)
             auto a = s->exactErrorWeightedEuclidean();
             auto b = s->exactErrorInfinity();
             if (a.has_value() && b.has_value()) {
@@ -561,6 +570,8 @@ static void modeOpt(const Case& c)
                 einf    = b.value();
                 haveErr = 1;
             }
+            else if (a.has_value() != b.has_value())
+                haveErr = 2;
         }
         const auto& u = s->solution();
         bool finite   = true;
